@@ -77,7 +77,10 @@ class SymT(torch.Tensor):
         # (g^T g)^-1 g^T, valid for full column rank (stated assumption), noise size <= 2
         if func in (torch.Tensor.pinverse, torch.pinverse, torch.linalg.pinv):
             return sym_pinverse(args[0])
-        return super().__torch_function__(func, types, args, kwargs or {})
+        # no subclass re-wrapping of plain results (the default implementation would turn a plain tensor returned by a
+        # concretised predicate into a SymT shell without payload)
+        with torch._C.DisableTorchFunctionSubclass():
+            return func(*args, **(kwargs or {}))
 
     @classmethod
     def __torch_dispatch__(cls, func, types, args=(), kwargs=None):
